@@ -151,7 +151,7 @@ def walker_selection(F, R, bodies, tag="C15-b"):
     conts = [n for n in nx["_nodes"] if n["k"] == "Continue"]
     for c in conts:
         g = guards_at(F, c)
-        ok = any(x.kind == "cond" and x.pol and any(ctor_of(y) == "graph::GraphKind::TypesOnly" for y in walk(x.node)) for x in g)
+        ok = any(x.kind == "cond" and x.pol and x.node.get("k") == "Binary" and x.node["op"] == "==" and any(ctor_of(peel(x.node[s_])) == "graph::GraphKind::TypesOnly" for s_ in ("l", "r")) and any(field_of(x.node[s_]) == "kind" for s_ in ("l", "r")) for x in g)
         R.ob(tag, "a module is skipped only in types-only walks", ok, "`continue` (skip yielding a module) is not guarded by kind == TypesOnly", where(c))
         sub = any(x.kind == "pat" and x.pol and "graph::Resolution::Ok" in pat_text(x.pat) for x in g) or any(x.kind == "pat" and x.pol and any(y.get("k") == "MethodCall" and y["name"] in ("ok", "maybe_specifier") for y in walk(x.scrut)) for x in g)
         unchk = any(x.kind == "cond" and not x.pol and (x.node.get("fn") or "").endswith("is_checkable") for x in g)
